@@ -12,6 +12,7 @@ import (
 	"fmt"
 	"os"
 	"testing"
+	"time"
 
 	"github.com/rogpeppe/go-internal/cache"
 	"pgregory.net/rapid"
@@ -48,6 +49,7 @@ type Plan struct {
 	Pre       []PutStep   `json:"pre"`
 	PreDamage string      `json:"pre_damage,omitempty"` // same-size | shorter | longer (applied to the target's output file)
 	Trimmed   bool        `json:"trimmed,omitempty"`    // the target's output file is absent although index entries name it (the state a Trim can leave: not damage)
+	AgeHours  int         `json:"age_hours,omitempty"` // simulated time that passes between the earlier Puts and the target Put
 	Target    PutStep     `json:"target"`
 	Via       string      `json:"via"` // bytes | reader
 	Chunk     int         `json:"chunk"`
@@ -83,6 +85,8 @@ func genPlan(t *rapid.T, tier string) any {
 		p.Trimmed = true
 		p.Pre = append(p.Pre, PutStep{rapid.IntRange(0, nIDs-1).Draw(t, "trimid"), p.Target.Content})
 	}
+	// the cache is not always freshly written: the earlier entries may be hours, days or years old
+	p.AgeHours = rapid.SampledFrom([]int{0, 0, 0, 2, 25, 4 * 24, 5*24 + 2, 6 * 24, 400 * 24}).Draw(t, "agehours")
 	p.Via = rapid.SampledFrom([]string{"bytes", "reader", "reader"}).Draw(t, "via")
 	p.Chunk = rapid.SampledFrom([]int{1, 100, 4096, 1 << 20}).Draw(t, "chunk")
 	if tier == "thorough" && rapid.IntRange(0, 9).Draw(t, "all") == 0 {
@@ -350,6 +354,11 @@ func run(t *testing.T, plan any, keep bool) *simcheck.Outcome {
 				e.readable[i] = err == nil && bytes.Equal(data, e.contents[e.before[i]])
 			}
 		}
+		// time passes only now: the lookups above count as uses and would make every file young again
+		if p.AgeHours > 0 {
+			simtime.Advance(time.Duration(p.AgeHours) * time.Hour)
+			out.Count("shape_aged_cache", 1)
+		}
 		snap := cachekit.Snapshot(dir)
 		mt := simos.SnapshotMtimes()
 		rewind := func() {
@@ -502,6 +511,9 @@ func run(t *testing.T, plan any, keep bool) *simcheck.Outcome {
 		out.Inconclusive = "step cap: " + rep.DescribeBlocked()
 	}
 	out.Nontrivial = fired > 0
+	if d := simtime.Offset().Seconds(); d > 0 {
+		out.SimSeconds = d
+	}
 	out.Count("fault_points_executed", int64(faultPoints))
 	out.Count("halts", int64(rep.Halts))
 	_, firedKinds := simos.Counters()
@@ -520,7 +532,7 @@ func run(t *testing.T, plan any, keep bool) *simcheck.Outcome {
 var harness = &simcheck.Harness{
 	Property: "C12",
 	Level:    "fault_enumeration",
-	Rule: "a scenario shape (0-3 prior Puts, target id/content, optional pre-damage of the target's output file (same size / shorter / longer / shorter with wrong bytes) or an output that was trimmed away while index entries still name it, PutBytes or a chunking ReadSeeker with Len, optionally a healthy companion process storing the same content) is drawn by rapid; a fault-free dry run " +
+	Rule: "a scenario shape (0-3 prior Puts, 0 hours to 400 days of simulated time between them and the target Put, target id/content, optional pre-damage of the target's output file (same size / shorter / longer / shorter with wrong bytes) or an output that was trimmed away while index entries still name it, PutBytes or a chunking ReadSeeker with Len, optionally a healthy companion process storing the same content) is drawn by rapid; a fault-free dry run " +
 		"counts the N file operations and M reader calls of the target Put; then one fault is injected (operation k fails / writes short and fails / process halts before / after / in the middle of it; " +
 		"or the reader fails to seek, fails mid-read, ends early, flips a byte in one pass, grows in one pass, returns data with EOF), or - thorough, a tenth of the shapes - the whole " +
 		"(operation x action) and reader fault space of the shape is executed to completion; every attempt starts from the same rewound disk state; thorough adds a concurrent reader process; " +
